@@ -22,6 +22,8 @@ CONFIGS = {
     "miri_sse2": dict(tlsh=BASE_FEATURES, sim=[], rustflags=""),
     "miri_sse41": dict(tlsh=BASE_FEATURES, sim=[], rustflags="-C target-feature=+sse4.1,+ssse3"),
     "miri_avx2": dict(tlsh=BASE_FEATURES, sim=[], rustflags="-C target-feature=+avx2"),
+    # a CPU generation between the named tiers: SSSE3 but neither SSE4.1 nor AVX2 (Core 2 / early Atom)
+    "miri_ssse3": dict(tlsh=BASE_FEATURES, sim=[], rustflags="-C target-feature=+ssse3"),
     "miri_unsafe_sse2": dict(tlsh=BASE_FEATURES + ["unsafe"], sim=[], rustflags=""),
     "miri_unsafe_sse41": dict(tlsh=BASE_FEATURES + ["unsafe"], sim=[], rustflags="-C target-feature=+sse4.1,+ssse3"),
     "miri_unsafe_avx2": dict(tlsh=BASE_FEATURES + ["unsafe"], sim=[], rustflags="-C target-feature=+avx2"),
@@ -295,6 +297,23 @@ def run_sim(ctx, binary, args, timeout=7200, env=None, allow_abort=False):
     return p.returncode, rep, p.stderr
 
 
+def run_or_death(ctx, binary, args, env=None):
+    """Runs a one-off simulator job (a real multi-GiB stream, a file batch, ...) and returns its report.  If the process
+    dies instead (signal, abort, stack overflow, illegal instruction), that is a finding about the code under test, not a
+    harness error: a synthetic report carrying one `native-abort` violation (replayed by re-running the same argv)."""
+    code, rep, err = run_sim(ctx, binary, args, allow_abort=True, env=env)
+    if code in (0, 1) and rep is not None:
+        return rep
+    msg = [l for l in err.splitlines() if l.strip()]
+    sig = {-11: "SIGSEGV", -6: "SIGABRT", -4: "SIGILL", -7: "SIGBUS", 134: "SIGABRT", 101: "panic outside the guarded call"}.get(code, "exit %s" % code)
+    argv = [str(a) for a in args]
+    return {"scenario": argv[0], "seed": "0", "evaluations": 1, "distinct": 1, "distinct_nontrivial": 1, "counters": {}, "samples": [], "violation_count": 1,
+            "rule": "one-off job that died", "wall_s": 0,
+            "violations": [{"index": 0, "class": "native-abort:%s %s" % (argv[0], sig), "engine": "native-abort", "argv": argv,
+                            "detail": "the simulator process died (%s) while running `%s`: %s" % (sig, " ".join(argv), " | ".join(msg[-5:])[:600]),
+                            "history": {"argv": argv}}]}
+
+
 # ---------------------------------------------------------------------------------------------
 # known findings
 # ---------------------------------------------------------------------------------------------
@@ -455,7 +474,7 @@ def range_reproduces(ctx, binary, doc):
     return any(v.get("index") == doc.get("index") and v.get("class") == doc["violation"]["class"] for v in (rep or {}).get("violations", []))
 
 
-def sim_batch(ctx, vd, config, binary, scenario, count, threads=NCPU, start=0, extra=(), abort_fallback=False):
+def sim_batch(ctx, vd, config, binary, scenario, count, threads=NCPU, start=0, extra=(), abort_fallback=True):
     t = time.time()
     code, rep, err = run_sim(ctx, binary, ["batch", scenario, "--seed", vd.seed, "--start", start, "--count", count,
                                            "--threads", threads] + list(extra), allow_abort=abort_fallback)
@@ -589,16 +608,18 @@ def check_C12(ctx, tier, seed):
     scratch = os.path.join(ctx.build_root, "default", "files")
     os.makedirs(scratch, exist_ok=True)
     # one REAL file beyond the generator's limit in every run (sparse: costs no disk), overlapped with the batch
-    side = ThreadPoolExecutor(max_workers=5)
-    big_jobs = [side.submit(lambda: run_sim(ctx, b, ["hashfile-big", "--dir", scratch, "--variant", seed % 5, "--total", 4224281217 + seed % 3])[1])]
+    side = ThreadPoolExecutor(max_workers=6)
+    big_jobs = [side.submit(lambda: run_or_death(ctx, b, ["hashfile-big", "--dir", scratch, "--variant", seed % 5, "--total", 4224281217 + seed % 3]))]
     # ... and one whose size is a multiple of 2^32 (a length that truncates to 0 in 32 bits)
-    big_jobs.append(side.submit(lambda: run_sim(ctx, b, ["hashfile-big", "--dir", os.path.join(scratch, "pow32"), "--variant", (seed + 2) % 5, "--total", (1 << 32) * (1 if tier == "quick" else 2)])[1]))
+    big_jobs.append(side.submit(lambda: run_or_death(ctx, b, ["hashfile-big", "--dir", os.path.join(scratch, "pow32"), "--variant", (seed + 2) % 5, "--total", (1 << 32) * (1 if tier == "quick" else 2)])))
     # a stream of ~100 MB through hash_stream_for with mostly full-buffer reads (anything that counts buffers / doubles sizes)
-    big_jobs.append(side.submit(lambda: run_sim(ctx, b, ["bigreader", "--variant", (seed + 1) % 5, "--pattern", "a40e17", "--seed", seed, "--total", 100_000_000 + seed % 1000])[1]))
+    big_jobs.append(side.submit(lambda: run_or_death(ctx, b, ["bigreader", "--variant", (seed + 1) % 5, "--pattern", "a40e17", "--seed", seed, "--total", 100_000_000 + seed % 1000])))
+    # a stream of 2^32 + k bytes whose reader then FAILS (errno 5) instead of ending: the error must come back, however much was read
+    big_jobs.append(side.submit(lambda: run_or_death(ctx, b, ["bigreader", "--variant", (seed + 3) % 5, "--pattern", "00ff10", "--seed", seed, "--total", (1 << 32) + 17 + seed % 5, "--fail-at-end"])))
     # hash_file from a process without privileges on a file owned by somebody else
-    big_jobs.append(side.submit(lambda: run_sim(ctx, b, ["hashfile-unpriv", "--path", "/etc/passwd"])[1]))
+    big_jobs.append(side.submit(lambda: run_or_death(ctx, b, ["hashfile-unpriv", "--path", "/etc/passwd"])))
     if tier != "quick":
-        big_jobs.append(side.submit(lambda: run_sim(ctx, b, ["hashfile-big", "--dir", scratch, "--variant", (seed + 2) % 5, "--total", 4224281216])[1]))
+        big_jobs.append(side.submit(lambda: run_or_death(ctx, b, ["hashfile-big", "--dir", scratch, "--variant", (seed + 2) % 5, "--total", 4224281216])))
     # a process that dies (stack exhaustion on the small-stack threads, an abort) is a violation, not a harness error
     sim_batch_procs(ctx, vd, "default", b, "c12", n, abort_engine="native-abort")
     extra_bins = build_many(ctx, ["lowmem", "rel_unsafe"])
@@ -606,10 +627,8 @@ def check_C12(ctx, tier, seed):
     sim_batch_procs(ctx, vd, "lowmem", lb, "c12", n // 4, abort_engine="native-abort")
     sim_batch_procs(ctx, vd, "rel_unsafe", extra_bins["rel_unsafe"], "c12", n // 4, abort_engine="native-abort")
     for i in range(1 if tier == "quick" else 16):
-        code, rep, err = run_sim(ctx, b, ["hashfile", "--dir", scratch, "--seed", seed + i])
-        vd.add("default", rep)
-        code, rep, err = run_sim(ctx, lb, ["hashfile", "--dir", os.path.join(scratch, "lowmem"), "--seed", seed + i])
-        vd.add("lowmem", rep)
+        vd.add("default", run_or_death(ctx, b, ["hashfile", "--dir", scratch, "--seed", seed + i]))
+        vd.add("lowmem", run_or_death(ctx, lb, ["hashfile", "--dir", os.path.join(scratch, "lowmem"), "--seed", seed + i]))
     for j in big_jobs:
         vd.add("default", j.result())
     c12_alloc_faults(ctx, vd, build(ctx, "alloc_default"), os.path.join(scratch, "allocfault"), tier == "quick")
@@ -620,8 +639,8 @@ def check_C12(ctx, tier, seed):
                 for v, pat, total in ((1, "a40e", 4224281216), (0, "41", 4224281217), (4, "0102", (1 << 32) + 12345), (3, "a40e5566", 4224281215))]
         t = time.time()
         with ThreadPoolExecutor(max_workers=4) as ex:
-            for code_rep in ex.map(lambda a: run_sim(ctx, b, a), jobs):
-                vd.add("default", code_rep[1])
+            for rep in ex.map(lambda a: run_or_death(ctx, b, a), jobs):
+                vd.add("default", rep)
         ctx.log("multi-GiB streams through hash_stream_for: %d in %.1fs" % (len(jobs), time.time() - t))
     vd.extra["components_real"] = ["tlsh::hash_stream / hash_stream_for::<T> (all five variants), hash_file / hash_file_for on real files (real kernel read path), tlsh::hash_buf_for (oracle side), Generator::update/finalize"]
     vd.extra["components_stub"] = ["the reader (scripted SimReader: deliveries, EINTR, hard errors, early EOF, scribbling)", "thorough: strace injects EINTR into counted real read(2) calls of hash_file",
@@ -640,9 +659,9 @@ def check_C03(ctx, tier, seed):
     rnd = random.Random(seed)
     pat = "".join("%02x" % rnd.getrandbits(8) for _ in range(rnd.randint(3, 11)))
     side = ThreadPoolExecutor(max_workers=2)
-    jobs = [side.submit(lambda: run_sim(ctx, b, ["c03big", "--variant", seed % 5, "--pattern", pat, "--seed", seed, "--total", (1 << 30) + 12345 + seed % 1000])[1])]
+    jobs = [side.submit(lambda: run_or_death(ctx, b, ["c03big", "--variant", seed % 5, "--pattern", pat, "--seed", seed, "--total", (1 << 30) + 12345 + seed % 1000]))]
     if tier != "quick":
-        jobs.append(side.submit(lambda: run_sim(ctx, b, ["c03big", "--variant", (seed + 1) % 5, "--pattern", "a40e", "--seed", seed + 1, "--total", (1 << 31) + (1 << 29) + 77])[1]))
+        jobs.append(side.submit(lambda: run_or_death(ctx, b, ["c03big", "--variant", (seed + 1) % 5, "--pattern", "a40e", "--seed", seed + 1, "--total", (1 << 31) + (1 << 29) + 77])))
     # single-threaded worker processes: whatever process-wide state a tree keeps (dispatch cells, caches) then sees many
     # different first-use orders (one per process), and each process is a deterministic function of its index range
     sim_batch_procs(ctx, vd, "default", b, "c03", n, abort_engine="native-abort")
@@ -704,8 +723,9 @@ MATRIX_QUICK = ["m_plain", "m_default", "m_unsafe", "m_embedded", "m_static_sse4
 def transcript_of(ctx, binary, seed, count):
     p = subprocess.run([binary, "transcript", "--seed", str(seed), "--count", str(count)], stdout=subprocess.PIPE, stderr=subprocess.PIPE, text=True, errors="replace")
     if p.returncode != 0:
-        sys.stderr.write(p.stderr[-3000:])
-        raise HarnessError("transcript probe failed: %s" % binary)
+        # the probe process died (abort, signal, undefined behaviour under feature `unsafe`, ...): a finding about that build
+        msg = [l for l in p.stderr.splitlines() if l.strip()]
+        return None, "DIED exit=%s %s" % (p.returncode, " | ".join(msg[-4:])[:500])
     lines = p.stdout.splitlines()
     if not lines or not lines[-1].startswith("DIGEST "):
         raise HarnessError("transcript probe printed no digest: %s" % binary)
@@ -719,9 +739,19 @@ def matrix_compare(ctx, vd, keys, count):
     t = time.time()
     with ThreadPoolExecutor(max_workers=len(keys)) as ex:
         trs = dict(zip(keys, ex.map(lambda k: transcript_of(ctx, bins[k], vd.seed, count), keys)))
+    nviol = 0
+    dead = [k for k in keys if trs[k][0] is None]
+    for k in dead:
+        nviol += 1
+        vd.add_violation(k, "c07matrix", {"class": "build-dies:%s" % k, "index": 0, "engine": "matrix-death",
+                                          "detail": "the probe binary of build %s died while running the seeded workload (the other builds finish it): %s" % (k, trs[k][1]),
+                                          "history": {"build": k, "features": CONFIGS[k]["tlsh"], "rustflags": CONFIGS[k].get("rustflags", ""), "profile": CONFIGS[k].get("profile"), "count": count}})
+    keys = [k for k in keys if k not in dead]
+    if ref_key in dead:
+        ref_key = keys[0]
     ref_lines, ref_digest = trs[ref_key]
     distinct = len(set(ref_lines))
-    nviol = 0
+    trs = {k: v for k, v in trs.items() if k in keys}
     if len(set(d for _, d in trs.values())) > 1:
         # majority vote per differing op: the builds in the minority are the ones reported (the nominal
         # reference, the everything-off build, can itself be the wrong one)
@@ -833,10 +863,17 @@ def check_C07(ctx, tier, seed):
     # low-memory-buckets build, and one real single slice > u32::MAX on the build with feature `unsafe`
     hl = try_build(ctx, "hooked_lowmem")
     side = ThreadPoolExecutor(max_workers=1)
-    big = side.submit(lambda: run_sim(ctx, bins["m_unsafe"], ["bigstream", "--variant", seed % 5, "--pattern", "00", "--seed", 1, "--single-slice", (1 << 32) + 1000])[1])
+    big_argv = ["bigstream", "--variant", seed % 5, "--pattern", "00", "--seed", 1, "--single-slice", (1 << 32) + 1000]
+    big = side.submit(lambda: run_sim(ctx, bins["m_unsafe"], big_argv, allow_abort=True))
     if hl:
         sim_batch_procs(ctx, vd, "hooked_lowmem", hl, "c11", 15_000 if quick else T(300_000))
-    vd.add("m_unsafe", big.result())
+    bcode, brep, berr = big.result()
+    if brep is not None and bcode in (0, 1):
+        vd.add("m_unsafe", brep)
+    else:
+        vd.add_violation("m_unsafe", "c11big", {"class": "native-abort:single slice > u32::MAX", "index": 0, "engine": "native-abort",
+                                               "detail": "the build with feature unsafe died (exit %s) on one update() call with 2^32+1000 bytes: %s" % (bcode, berr[-300:].replace("\n", " | ")),
+                                               "history": {"single_slice": (1 << 32) + 1000}, "argv": [str(a) for a in big_argv]})
     if degraded:
         vd.extra["DEGRADED"] = degraded
         print("NOTE: C07 ran with reduced coverage: %s" % "; ".join(degraded), flush=True)
@@ -1098,6 +1135,7 @@ def check_C17(ctx, tier, seed):
             scs = ["c17api", "c17reader", "c03", "c12"]
         pairs += [(cfg, sc) for sc in scs]
     pairs.append(("miri_unsafe_lowmem", "c17api"))
+    pairs.append(("miri_ssse3", "c17api"))
     # all (configuration, scenario) pairs run concurrently, 3 interpreter processes each in the quick tier
     procs = 3 if quick else 4
     per = 32 if quick else max(8, T(128))
@@ -1134,7 +1172,7 @@ def check_C11_unhooked(ctx, vd, tier, seed):
     jobs.append(["bigstream", "--variant", seed % 5, "--pattern", "00", "--seed", 1, "--single-slice", (1 << 32) + 1000])
     jobs.append(["bigstream", "--variant", (seed + 3) % 5, "--pattern", "00", "--seed", 1, "--single-slice", 4224281216])
     with ThreadPoolExecutor(max_workers=8) as ex:
-        futs = [ex.submit(lambda a=a: run_sim(ctx, bins["default"], a)[1]) for a in jobs]
+        futs = [ex.submit(lambda a=a: run_or_death(ctx, bins["default"], a)) for a in jobs]
         sim_batch(ctx, vd, "default", bins["default"], "c11small", 60_000, threads=8)
         sim_batch(ctx, vd, "dbg", bins["dbg"], "c11small", 15_000, threads=8)
         for f in futs:
@@ -1157,15 +1195,15 @@ def check_C11(ctx, tier, seed):
     side = ThreadPoolExecutor(max_workers=4)
     # ... and one sparse FILE of exactly 2^32 bytes through hash_file_for (a size whose low 32 bits are zero)
     fscratch = os.path.join(ctx.build_root, "hooked", "files")
-    side_job4 = side.submit(lambda: run_sim(ctx, bins["hooked"], ["hashfile-big", "--dir", fscratch, "--variant", (seed + 2) % 5, "--total", 1 << 32])[1])
-    side_job = side.submit(lambda: run_sim(ctx, bins["hooked"], ["bigstream", "--variant", seed % 5, "--pattern", "00", "--seed", 1,
-                                                                "--single-slice", (1 << 32) + 1000 + seed % 7])[1])
+    side_job4 = side.submit(lambda: run_or_death(ctx, bins["hooked"], ["hashfile-big", "--dir", fscratch, "--variant", (seed + 2) % 5, "--total", 1 << 32]))
+    side_job = side.submit(lambda: run_or_death(ctx, bins["hooked"], ["bigstream", "--variant", seed % 5, "--pattern", "00", "--seed", 1,
+                                                                "--single-slice", (1 << 32) + 1000 + seed % 7]))
     # ... and one single slice of exactly 4,224,281,216 bytes (> 1 GiB, > 2^31, not a multiple of any power-of-two block):
     # every byte of it must be counted, the result must be the reference hash with length code 169
     # ... and one generated stream of MAX + 1 bytes through the stream helper (the limit must also hold when the bytes arrive through hash_stream*)
-    side_job3 = side.submit(lambda: run_sim(ctx, bins["hooked"], ["bigreader", "--variant", (seed + 1) % 5, "--pattern", "5a", "--seed", seed, "--total", (1 << 32) + 5 + seed % 7])[1])
-    side_job2 = side.submit(lambda: run_sim(ctx, bins["hooked"], ["bigstream", "--variant", (seed + 3) % 5, "--pattern", "00", "--seed", 1,
-                                                                 "--single-slice", 4224281216])[1])
+    side_job3 = side.submit(lambda: run_or_death(ctx, bins["hooked"], ["bigreader", "--variant", (seed + 1) % 5, "--pattern", "5a", "--seed", seed, "--total", (1 << 32) + 5 + seed % 7]))
+    side_job2 = side.submit(lambda: run_or_death(ctx, bins["hooked"], ["bigstream", "--variant", (seed + 3) % 5, "--pattern", "00", "--seed", 1,
+                                                                 "--single-slice", 4224281216]))
     # single-threaded processes: every history also draws a simulated CPU, so each backend's quartile / body code meets
     # the bucket counts that only multi-GiB inputs produce
     sim_batch_procs(ctx, vd, "hooked", bins["hooked"], "c11", n)
@@ -1192,8 +1230,7 @@ def check_C11(ctx, tier, seed):
             jobs.append(["bigstream", "--variant", v, "--pattern", "00", "--seed", 1, "--single-slice", total])
         t = time.time()
         def big(args):
-            code, rep, err = run_sim(ctx, bins["hooked"], args)
-            return rep
+            return run_or_death(ctx, bins["hooked"], args)
         with ThreadPoolExecutor(max_workers=NCPU - 2) as ex:
             for rep in ex.map(big, jobs):
                 vd.add("hooked", rep)
@@ -1271,9 +1308,19 @@ def replay(ctx, pid, path):
                 CONFIGS[h["reference_build"]]["profile"] = h["reference_profile"]
         bins = build_many(ctx, [h["reference_build"], h["build"]])
         n = int(h["op_index"]) + 1
-        a, _ = transcript_of(ctx, bins[h["build"]], doc["seed"], n)
-        b, _ = transcript_of(ctx, bins[h["reference_build"]], doc["seed"], n)
+        a, da = transcript_of(ctx, bins[h["build"]], doc["seed"], n)
+        b, db = transcript_of(ctx, bins[h["reference_build"]], doc["seed"], n)
+        if a is None or b is None:
+            return report(True, "a probe binary died: %s / %s" % (da, db))
         return report(a[-1] != b[-1], "op #%d: %s `%s` vs %s `%s`" % (n - 1, h["build"], a[-1], h["reference_build"], b[-1]))
+    if engine == "matrix-death":
+        h = doc["history"]
+        if h["build"] not in CONFIGS:
+            CONFIGS[h["build"]] = dict(tlsh=h["features"], sim=[], rustflags=h.get("rustflags", ""))
+            if h.get("profile"):
+                CONFIGS[h["build"]]["profile"] = h["profile"]
+        lines, digest = transcript_of(ctx, build(ctx, h["build"]), doc["seed"], int(h.get("count", 20000)))
+        return report(lines is None, digest[:400])
     if engine == "miri":
         h = doc["history"]
         code, out, err = miri_run(ctx, h.get("config", cfg), doc["argv"], many_seeds=h.get("many_seeds"))
@@ -1385,7 +1432,7 @@ def main(verif, argv):
             build_many(ctx, SETUP_CONFIGS)
             # Miri: build the interpreter sysroot and the crates once per configuration used by the quick tiers
             with ThreadPoolExecutor(max_workers=4) as ex:
-                list(ex.map(lambda k: miri_run(ctx, k, ["batch", "c17api", "--count", 0, "--threads", 1]), ["miri_sse2", "miri_sse41", "miri_avx2", "miri_unsafe_sse2", "miri_unsafe_lowmem"]))
+                list(ex.map(lambda k: miri_run(ctx, k, ["batch", "c17api", "--count", 0, "--threads", 1]), ["miri_sse2", "miri_sse41", "miri_avx2", "miri_unsafe_sse2", "miri_unsafe_lowmem", "miri_ssse3"]))
             return 0
         if argv[0] == "selftest":
             return selftest(ctx)
